@@ -183,6 +183,17 @@ func init() {
 			}
 			return true
 		})
+		flagAccum := ""
+		ast.Inspect(ex.Body, func(n ast.Node) bool {
+			if as, ok := n.(*ast.AssignStmt); ok && len(as.Lhs) == 1 && len(as.Rhs) == 1 &&
+				src(fsetR, as.Lhs[0]) == "intersectionOrExclusionInPreviousEdges" && flagAccum == "" {
+				flagAccum = src(fsetR, as.Rhs[0])
+			}
+			return true
+		})
+		if flagAccum == "" {
+			return Result{}, fmt.Errorf("execute: accumulation of the intersection/exclusion flag not found")
+		}
 		sort.Slice(marks, func(i, j int) bool { return marks[i].p < marks[j].p })
 		var execOrder []string
 		for _, m := range marks {
@@ -322,6 +333,8 @@ func init() {
 		sb.WriteString("def zeroLimitReportsErrors : Bool := " + b(strings.Contains(finalRule, "maxResults == 0 ||")) + "\n")
 		sb.WriteString("def executeOrder : List String := " + leanStrList(execOrder) + "\n")
 		sb.WriteString("def visitedKeyFormat : String := " + leanStr(visitedKey) + "\n")
+		sb.WriteString("/-- how the flag of the edge taken is combined with the flag accumulated so far -/\n")
+		sb.WriteString("def flagAccumulation : String := " + leanStr(flagAccum) + "\n")
 		sb.WriteString("def readTuplesLoopConds : List String := " + leanStrList(readConds) + "\n")
 		sb.WriteString("def pipelineGuard : String := " + leanStr(pipelineGuard) + "\n")
 		sb.WriteString("def weightedGuard : String := " + leanStr(weightedGuard) + "\n")
